@@ -307,12 +307,15 @@ CLAIMED = {
              "C14_inflight_close_completes / C14_blocked_request_keeps_waiting - a handler run and Request::close behave identically (same "
              "result, bytes read and written, observations) whenever and however often shutdown is requested meanwhile; idle connections: C14_idle_connection_stops / "
              "C14_pending_read_sees_stop - the read between requests is given up as soon as shutdown is requested, nothing further is read or "
-             "written; end to end this is also exercised by the correspondence check (shutdown requested before every scheduling step k of Pending-heavy "
+             "written; the WHOLE connection: C14_shutdown_cut - compared with the same connection never shut down, a shutdown requested at ANY moment "
+             "either makes no difference or makes the task return at a request boundary: the handler invocations are an initial segment of the "
+             "undisturbed run's (same requests, results and transport log at every invocation boundary), every one closed with its complete epilogue, "
+             "the transport log a prefix, no more input consumed (non-vacuity: C14_shutdown_cut_example); end to end this is also exercised by the correspondence check (shutdown requested before every scheduling step k of Pending-heavy "
              "connections, idle clients woken by shutdown) + oracle. The wait-group windows are forced on the real crate through the "
              "cfg(fastcgi_server_verif) hook (/repo ed42bbf); in addition mode wg_race runs real two-thread races of one poll against the last token "
              "drop (10^5 steered trials per case; sound oracle, probabilistic detection) as a supporting search for windows no hook reaches.",
         design="6/C14, 13.4", technique="Coq proof (wait-group transition system, all window placements) + differential execution with hook-forced interleavings and shutdown injected at every scheduling step",
-        note="Arc/Weak/AtomicWaker modelled; select polls its left future first (modelled); all clauses have theorems; the composition over a whole connection is exercised by the correspondence check."),
+        note="Arc/Weak/AtomicWaker modelled; select polls its left future first (modelled); all clauses have theorems, including the composition over a whole connection (C14_shutdown_cut)."),
 }
 
 PENDING = {}
